@@ -73,6 +73,10 @@ pub struct C13Case {
     /// command-line variant (exit status of the built converters) instead of the library call
     #[serde(default)]
     pub tool: Option<crate::clifam::RefuseTool>,
+    /// write-option variant: 0 staging in memory; 1 temporary files, uncompressed; 2 channel
+    /// capacity 1; 3 channel capacity 1, temporary files, manual zoom list; 4 one item per section
+    #[serde(default)]
+    pub ovar: u8,
 }
 
 const CLEN: u32 = 100;
@@ -287,6 +291,24 @@ fn c13_write(c: &C13Case, tmpdir: &std::path::Path) -> Result<(), String> {
         opts.items_per_slot = 2;
         opts.block_size = 2;
     }
+    match c.ovar {
+        0 => {}
+        1 => {
+            opts.inmemory = false;
+            opts.compress = false;
+        }
+        2 => opts.channel_size = 1,
+        3 => {
+            opts.channel_size = 1;
+            opts.inmemory = false;
+            opts.manual_zoom_sizes = Some(vec![2, 8]);
+        }
+        _ => {
+            opts.items_per_slot = 1;
+            opts.block_size = 2;
+            opts.channel_size = 2;
+        }
+    }
     if let Some(Degenerate::NoValues { nchrom }) = &c.valid {
         let chroms: Vec<String> = chrom_names(c.nchrom)[..*nchrom].to_vec();
         return if c.bed {
@@ -474,6 +496,7 @@ impl Check for C13 {
     fn cases(&self, tier: Tier) -> Box<dyn Iterator<Item = C13Case> + '_> {
         let quick = tier == Tier::Quick;
         let rts: Vec<Rt> = if quick { vec![Rt::Current, Rt::Multi(2)] } else { vec![Rt::Current, Rt::Multi(2), Rt::Multi(4)] };
+        let ovars: Vec<u8> = if quick { vec![0, 2, 3] } else { vec![0, 1, 2, 3, 4] };
         let mut v = vec![];
         for bed in [false, true] {
             for (viol, iter_ok) in c13_viols(bed) {
@@ -483,7 +506,11 @@ impl Check for C13 {
                     }
                     for two_pass in [false, true] {
                         for &rt in &rts {
-                            v.push(C13Case { nchrom: 3, bed, valid: None, viol: Some(viol.clone()), src, two_pass, rt, tool: None });
+                            for &ovar in &ovars {
+
+                                v.push(C13Case { nchrom: 3, bed, valid: None, viol: Some(viol.clone()), src, two_pass, rt, tool: None, ovar });
+
+                            }
                         }
                     }
                 }
@@ -512,7 +539,11 @@ impl Check for C13 {
                 for src in srcs {
                     for two_pass in [false, true] {
                         for &rt in &rts {
-                            v.push(C13Case { nchrom: 3, bed, valid: Some(d.clone()), viol: None, src, two_pass, rt, tool: None });
+                            for &ovar in &ovars {
+
+                                v.push(C13Case { nchrom: 3, bed, valid: Some(d.clone()), viol: None, src, two_pass, rt, tool: None, ovar });
+
+                            }
                         }
                     }
                 }
@@ -535,7 +566,11 @@ impl Check for C13 {
                     for src in [Src::Iter, Src::SerialText, Src::ParallelFile] {
                         for two_pass in [false, true] {
                             for &rt in &rts {
-                                v.push(C13Case { nchrom: n, bed, valid: None, viol: Some(viol.clone()), src, two_pass, rt, tool: None });
+                                for &ovar in &ovars {
+
+                                    v.push(C13Case { nchrom: n, bed, valid: None, viol: Some(viol.clone()), src, two_pass, rt, tool: None, ovar });
+
+                                }
                             }
                         }
                     }
@@ -546,14 +581,18 @@ impl Check for C13 {
                 for src in [Src::Iter, Src::SerialText, Src::ParallelFile] {
                     for two_pass in [false, true] {
                         for &rt in &rts {
-                            v.push(C13Case { nchrom: n, bed, valid: Some(Degenerate::Base), viol: None, src, two_pass, rt, tool: None });
+                            for &ovar in &ovars {
+
+                                v.push(C13Case { nchrom: n, bed, valid: Some(Degenerate::Base), viol: None, src, two_pass, rt, tool: None, ovar });
+
+                            }
                         }
                     }
                 }
             }
         }
         for t in crate::clifam::refuse_tool_cases(quick) {
-            v.push(C13Case { nchrom: 3, bed: t.bed, valid: None, viol: None, src: Src::SerialText, two_pass: !t.single_pass, rt: Rt::Current, tool: Some(t) });
+            v.push(C13Case { nchrom: 3, bed: t.bed, valid: None, viol: None, src: Src::SerialText, two_pass: !t.single_pass, rt: Rt::Current, tool: Some(t), ovar: 0 });
         }
         Box::new(v.into_iter())
     }
@@ -962,7 +1001,7 @@ impl Check for C14 {
         out.nontrivial = true;
         match &c.mode {
             C14Mode::Refused(viol) => {
-                let cc = C13Case { nchrom: 3, bed: c.bed, valid: None, viol: Some(viol.clone()), src: Src::Iter, two_pass: c.opts.two_pass, rt: Rt::Current, tool: None };
+                let cc = C13Case { nchrom: 3, bed: c.bed, valid: None, viol: Some(viol.clone()), src: Src::Iter, two_pass: c.opts.two_pass, rt: Rt::Current, tool: None, ovar: 0 };
                 let inp = build_input(&cc);
                 let sink = Sink::new();
                 let s2 = sink.clone();
